@@ -29,14 +29,14 @@ func ValidateLiteralValue(node schema.Node, jsonValue bytes.Bytes) {
 		isNullable = c.(constraint.BoolKeeper).Bool()
 	}
 
+	if isNullable && jsonValue.String() == "null" {
+		// A null admitted by `nullable: true` is valid whatever other rules say.
+		return
+	}
+
 	for _, k := range keys {
 		t := constraint.Type(k)
 		c := m.GetValue(t)
-
-		if _, ok := c.(*constraint.Enum); ok && isNullable && jsonValue.String() == "null" {
-			// Handle cases like `null // {enum: [1, 2], nullable: true}`.
-			continue
-		}
 
 		if v, ok := c.(constraint.LiteralValidator); ok {
 			v.Validate(jsonValue)
